@@ -7,6 +7,8 @@
 // shape + accounting after the drained concurrent phase (C10).
 #include "global.hpp"  // unodb: first
 
+#include <array>
+#include <functional>
 #include <map>
 #include <set>
 #include <unordered_map>
@@ -673,6 +675,105 @@ struct olc_harness final : harness {
         if (st && shrink1[i] > shrink0[i]) st->inc("transitions_under_contention.shrink_from_class_" + std::to_string(i + 1), shrink1[i] - shrink0[i]);
       }
       if (st && db->get_key_prefix_splits() > splits0) st->inc("transitions_under_contention.prefix_split", db->get_key_prefix_splits() - splits0);
+      // Counters "move only when an inner node is created, replaced by one of another size class, or
+      // dissolved": every unit a counter moved during the concurrent phase needs its own structural
+      // event. Which events happened depends on the order in which the successful writes took effect,
+      // which the results alone do not reveal: enumerate every order of the successful inserts / removes
+      // that respects real-time precedence and per-key validity, replay each on the canonical model and
+      // demand that at least ONE order has, per class, at least as many events as the counter moved.
+      // (Exact equality with some order is only a diagnostic, as in the sequential check.)
+      if (v03.empty() && v10.empty()) {
+        std::vector<const pop*> W;
+        for (auto& pt : prog)
+          for (auto& o : pt)
+            if (o.executed && o.res && (o.k == O_INS || o.k == O_REM)) W.push_back(&o);
+        std::array<std::uint64_t, 4> dG{}, dS{};
+        for (std::size_t i = 0; i < 4; ++i) {
+          dG[i] = grow1[i] - grow0[i];
+          dS[i] = shrink1[i] - shrink0[i];
+        }
+        const std::uint64_t dP = db->get_key_prefix_splits() - splits0;
+        if (W.size() <= 14) {
+          kvmap cur = initial;
+          std::array<std::uint64_t, 4> aG{}, aS{};
+          std::uint64_t aP = 0;
+          std::uint64_t leaves = 0;
+          bool ok_some = false, exact_some = false, capped = false;
+          std::array<std::uint64_t, 4> maxG{}, maxS{};
+          std::vector<char> done(W.size(), 0);
+          std::function<void(std::size_t)> rec = [&](std::size_t ndone) {
+            if (capped || (ok_some && exact_some)) return;
+            if (ndone == W.size()) {
+              if (++leaves > 20000) {
+                capped = true;
+                return;
+              }
+              bool le = aP >= dP, eq = aP == dP;
+              for (std::size_t c = 0; c < 4; ++c) {
+                if (dG[c] > aG[c] || dS[c] > aS[c]) le = false;
+                if (dG[c] != aG[c] || dS[c] != aS[c]) eq = false;
+                maxG[c] = std::max(maxG[c], aG[c]);
+                maxS[c] = std::max(maxS[c], aS[c]);
+              }
+              if (le) ok_some = true;
+              if (eq) exact_some = true;
+              return;
+            }
+            for (std::size_t i = 0; i < W.size(); ++i) {
+              if (done[i]) continue;
+              bool blocked_by_rt = false;
+              for (std::size_t j = 0; j < W.size(); ++j)
+                if (!done[j] && j != i && W[j]->ret < W[i]->call) blocked_by_rt = true;
+              if (blocked_by_rt) continue;
+              const bool present = cur.count(W[i]->key) != 0;
+              if ((W[i]->k == O_INS) == present) continue;  // insert needs absence, remove presence
+              verif::counter_delta d;
+              std::string saved;
+              if (W[i]->k == O_INS) {
+                d = verif::expected_insert_delta(cur, W[i]->key);
+                cur[W[i]->key] = "v";
+              } else {
+                d = verif::expected_remove_delta(cur, W[i]->key);
+                saved = cur[W[i]->key];
+                cur.erase(W[i]->key);
+              }
+              for (std::size_t c = 0; c < 4; ++c) {
+                aG[c] += static_cast<std::uint64_t>(d.growing[c]);
+                aS[c] += static_cast<std::uint64_t>(d.shrinking[c]);
+              }
+              aP += static_cast<std::uint64_t>(d.prefix_splits);
+              done[i] = 1;
+              rec(ndone + 1);
+              done[i] = 0;
+              for (std::size_t c = 0; c < 4; ++c) {
+                aG[c] -= static_cast<std::uint64_t>(d.growing[c]);
+                aS[c] -= static_cast<std::uint64_t>(d.shrinking[c]);
+              }
+              aP -= static_cast<std::uint64_t>(d.prefix_splits);
+              if (W[i]->k == O_INS) cur.erase(W[i]->key);
+              else cur[W[i]->key] = saved;
+            }
+          };
+          rec(0);
+          if (st) st->inc(capped ? "counter_oracle_enumeration_capped" : "counter_oracle_evaluated");
+          if (!capped && leaves > 0) {
+            if (st && leaves > 1) st->inc("counter_oracle_with_several_write_orders");
+            if (!ok_some) {
+              std::string m = "growth / shrink / prefix-split counters moved by more than the structural events of ANY order of the successful writes: moved grow={";
+              for (std::size_t c = 0; c < 4; ++c) m += std::to_string(dG[c]) + (c < 3 ? "," : "} shrink={");
+              for (std::size_t c = 0; c < 4; ++c) m += std::to_string(dS[c]) + (c < 3 ? "," : "} splits=");
+              m += std::to_string(dP) + "; per-class maxima over " + std::to_string(leaves) + " orders: grow={";
+              for (std::size_t c = 0; c < 4; ++c) m += std::to_string(maxG[c]) + (c < 3 ? "," : "} shrink={");
+              for (std::size_t c = 0; c < 4; ++c) m += std::to_string(maxS[c]) + (c < 3 ? "," : "}");
+              v10 = m;
+            } else if (!exact_some && st) {
+              st->inc("diagnostic_counters_equal_no_write_order_exactly");
+            }
+          }
+        } else if (st) {
+          st->inc("counter_oracle_skipped_too_many_writes");
+        }
+      }
     }
 #endif
     {
